@@ -247,6 +247,52 @@ def params(sh):
               ('amp_threshes|compute_features(amp) %r' % (val,), exp,
                lambda val=val: compute_features(sig, FS, FR, burst_method='amp', burst_kwargs={'amp_threshes': val},
                                                 threshold_kwargs={'burst_fraction_threshold': .5}))]
+    # the same limits when the setting arrives as a numpy scalar / array (values taken from a parameter sweep array, np.arange, ...)
+    npv = [(np.float32(1.5), 'reject'), (np.float16(-0.5), 'reject'), (np.float64(1.5), 'reject'), (np.int64(2), 'reject'),
+           (np.int32(-1), 'reject'), (np.float32(0.5), 'accept'), (np.float16(0.25), 'accept'), (np.int64(1), 'accept'), (np.int32(0), 'accept')]
+    for key in ('amp_consistency_threshold', 'monotonicity_threshold'):
+        for val, exp in npv:
+            tag = '%s(%s)' % (type(val).__name__, val)
+            P += [('thr-numpy|detect_bursts_cycles %s=%s' % (key, tag), exp,
+                   lambda key=key, val=val: detect_bursts_cycles(df.copy(), **{key: val})),
+                  ('thr-numpy|compute_features %s=%s' % (key, tag), exp,
+                   lambda key=key, val=val: compute_features(sig, FS, FR, threshold_kwargs={key: val})),
+                  ('thr-numpy|Bycycle.fit %s=%s' % (key, tag), exp,
+                   lambda key=key, val=val: Bycycle(thresholds={key: val}).fit(sig, FS, FR))]
+    for val, exp in npv:
+        tag = '%s(%s)' % (type(val).__name__, val)
+        P += [('thr-numpy|detect_bursts_amp burst_fraction_threshold=%s' % tag, exp,
+               lambda val=val: detect_bursts_amp(dfa.copy(), burst_fraction_threshold=val)),
+              ('thr-numpy|compute_features(amp) burst_fraction_threshold=%s' % tag, exp,
+               lambda val=val: compute_features(sig, FS, FR, burst_method='amp', threshold_kwargs={'burst_fraction_threshold': val}))]
+    for val, exp in ((np.int64(-1), 'reject'), (np.int32(-2), 'reject'), (np.float32(-1), 'reject'), (np.int16(-1), 'reject'),
+                     (np.int64(2), 'accept'), (np.int32(0), 'accept'), (np.float32(2), 'accept')):
+        tag = '%s(%s)' % (type(val).__name__, val)
+        P += [('min_n_cycles-numpy|check_min_burst_cycles %s' % tag, exp,
+               lambda val=val: check_min_burst_cycles(np.array([True, False, True, True]), min_n_cycles=val)),
+              ('min_n_cycles-numpy|detect_bursts_cycles %s' % tag, exp, lambda val=val: detect_bursts_cycles(df.copy(), min_n_cycles=val)),
+              ('min_n_cycles-numpy|detect_bursts_amp %s' % tag, exp, lambda val=val: detect_bursts_amp(dfa.copy(), min_n_cycles=val)),
+              ('min_n_cycles-numpy|compute_features(cycles) %s' % tag, exp,
+               lambda val=val: compute_features(sig, FS, FR, threshold_kwargs={'min_n_cycles': val})),
+              ('min_n_cycles-numpy|compute_features(amp) burst_kwargs %s' % tag, exp,
+               lambda val=val: compute_features(sig, FS, FR, burst_method='amp', burst_kwargs={'min_n_cycles': val},
+                                                threshold_kwargs={'burst_fraction_threshold': .5})),
+              ('min_n_cycles-numpy|BycycleGroup.fit(cycles) %s' % tag, exp,
+               lambda val=val: BycycleGroup(thresholds={'min_n_cycles': val}).fit(s2, FS, FR, n_jobs=1))]
+    for val, exp in ((np.array([2, 1]), 'reject'), (np.array([3., .5], dtype=np.float32), 'reject'), ([2, 1], 'reject'),
+                     (np.array([1, 2]), 'accept'), (np.array([.5, 3.], dtype=np.float32), 'accept'), ([1, 2], 'accept')):
+        tag = '%s%s' % (type(val).__name__, list(np.asarray(val).tolist()))
+        P += [('amp_threshes-numpy|compute_burst_fraction %s' % tag, exp,
+               lambda val=val: compute_burst_fraction(shapes, sig, FS, FR, amp_threshes=val)),
+              ('amp_threshes-numpy|compute_features(amp) %s' % tag, exp,
+               lambda val=val: compute_features(sig, FS, FR, burst_method='amp', burst_kwargs={'amp_threshes': val},
+                                                threshold_kwargs={'burst_fraction_threshold': .5}))]
+    for val, exp in ((np.float32(-1), 'reject'), (np.int64(-1), 'reject'), (np.int32(-100), 'reject'), (np.int64(100), 'accept'), (np.float64(100), 'accept')):
+        tag = '%s(%s)' % (type(val).__name__, val)
+        P += [('fs-numpy|compute_features fs=%s' % tag, exp, lambda val=val: compute_features(sig, val, FR)),
+              ('fs-numpy|find_extrema fs=%s' % tag, exp, lambda val=val: find_extrema(sig, val, FR)),
+              ('fs-numpy|limit_df fs=%s' % tag, exp, lambda val=val: limit_df(df.copy(), val, 0, 1)),
+              ('fs-numpy|Bycycle.fit fs=%s' % tag, exp, lambda val=val: Bycycle().fit(sig, val, FR))]
     # enumerations
     for val in ('middle', 'Peak', None, 0):
         P += [('center_extrema|compute_features %r' % (val,), 'reject', lambda val=val: compute_features(sig, FS, FR, center_extrema=val)),
